@@ -253,6 +253,9 @@ def gen_spec(rng, **over):
         opt['start_clocktime'] = r3.choice([12 * 3600, 12 * 3600 + 1800, 12 * 3600 + 3599, 1800, 59, 11 * 3600 + 3540, 23 * 3600 + 3599,
                                             r3.randrange(0, 86400), 60 * r3.randrange(0, 1440)])
     opt['pattern_interpolation'] = r3.random() < 0.12
+    # Tank.overflow: an EPANET 2.2 option that the WNTRSimulator does not model (a full tank closes its inlets whatever it says)
+    for t_ in spec['tanks']:
+        t_['overflow'] = r3.random() < 0.2
     return spec
 
 
